@@ -72,4 +72,62 @@ Stmt(toks, i, b, c) ==
       [] OTHER    -> ERR
 
 Accepts(toks) == Block(toks, 1, 0, 0) = Len(toks)
+
+-----------------------------------------------------------------------------
+(* The same descent, reporting WHY and WHERE it stops: [kind, pos] with kind one of      *)
+(* "ok", "break", "continue", "dupcase", "twodefault" (the rules of C20) or "syntax".     *)
+(* pos is the index of the offending token.  Used by StmtReject for verdicts.             *)
+OK(p) == [kind |-> "ok", pos |-> p]
+Bad(k, p) == [kind |-> k, pos |-> p]
+IsOK(r) == r.kind = "ok"
+
+RECURSIVE EBlock(_, _, _, _), EStmt(_, _, _, _), ESwBlock(_, _, _, _), ECases(_, _, _, _, _, _), EIfTail(_, _, _, _)
+
+EBlock(toks, i, b, c) ==
+    LET t == At(toks, i) IN
+    IF t = "}" THEN OK(i)
+    ELSE IF t = "EOF" THEN Bad("syntax", i)
+    ELSE LET r == EStmt(toks, i, b, c) IN IF ~IsOK(r) THEN r ELSE EBlock(toks, r.pos + 1, b, c)
+
+ESwBlock(toks, i, b, c) ==
+    LET t == At(toks, i) IN
+    IF t \in {"}", "c1", "c2", "df"} THEN OK(i)
+    ELSE IF t = "EOF" THEN Bad("syntax", i)
+    ELSE LET r == EStmt(toks, i, b, c) IN IF ~IsOK(r) THEN r ELSE ESwBlock(toks, r.pos + 1, b, c)
+
+EBraced(toks, i, b, c) == IF At(toks, i) # "{" THEN Bad("syntax", i) ELSE EBlock(toks, i + 1, b, c)
+
+EIfTail(toks, k, b, c) ==
+    IF At(toks, k + 1) = "elif"
+    THEN LET r == EBraced(toks, k + 2, b, c) IN IF ~IsOK(r) THEN r ELSE EIfTail(toks, r.pos, b, c)
+    ELSE IF At(toks, k + 1) = "else" THEN EBraced(toks, k + 2, b, c)
+    ELSE OK(k)
+
+ECases(toks, j, b, c, seen, n) ==
+    LET t == At(toks, j) IN
+    IF t = "}" THEN (IF n = 0 THEN Bad("syntax", j) ELSE OK(j))
+    ELSE IF t \in {"c1", "c2", "df"}
+         THEN IF t \in seen THEN Bad(IF t = "df" THEN "twodefault" ELSE "dupcase", j)
+              ELSE LET r == ESwBlock(toks, j + 1, b, c) IN IF ~IsOK(r) THEN r ELSE ECases(toks, r.pos, b, c, seen \cup {t}, n + 1)
+    ELSE Bad("syntax", j)
+
+EStmt(toks, i, b, c) ==
+    LET t == At(toks, i) IN
+    CASE t = "c"  -> OK(i)
+      [] t = "if" -> LET r == EBraced(toks, i + 1, b, c) IN IF ~IsOK(r) THEN r ELSE EIfTail(toks, r.pos, b, c)
+      [] t = "wh" -> EBraced(toks, i + 1, b + 1, c + 1)
+      [] t = "lp" -> EBraced(toks, i + 1, b + 1, c + 1)
+      [] t = "do" -> LET r == EBraced(toks, i + 1, b + 1, c + 1) IN
+                     IF ~IsOK(r) THEN r ELSE IF At(toks, r.pos + 1) = "wh" THEN OK(r.pos + 1) ELSE Bad("syntax", r.pos + 1)
+      [] t = "br" -> IF b > 0 THEN OK(i) ELSE Bad("break", i)
+      [] t = "co" -> IF c > 0 /\ At(toks, i + 1) = "}" THEN OK(i)
+                     \* last in a case body but not before the closing brace: the parser is stricter than the
+                     \* manual here; not one of the violations C20 lists
+                     ELSE IF c > 0 /\ At(toks, i + 1) \in {"c1", "c2", "df"} THEN Bad("continue-before-case", i)
+                     ELSE Bad("continue", i)
+      [] t = "sw" -> IF At(toks, i + 1) # "{" THEN Bad("syntax", i + 1) ELSE ECases(toks, i + 2, b + 1, c, {}, 0)
+      [] OTHER    -> Bad("syntax", i)
+
+FirstError(toks) == LET r == EBlock(toks, 1, 0, 0) IN
+                    IF IsOK(r) THEN (IF r.pos = Len(toks) THEN OK(0) ELSE Bad("syntax", r.pos + 1)) ELSE r
 =============================================================================
